@@ -257,13 +257,26 @@ pub fn generator_return(
     let obj_ref = obj.borrow();
     match &obj_ref.exotic {
         ExoticObject::BytecodeGenerator(state) => {
-            let is_async = state.borrow().is_async;
-            if state.borrow().status == GeneratorStatus::Running {
+            let gen_state = state.clone();
+            let is_async = gen_state.borrow().is_async;
+            if gen_state.borrow().status == GeneratorStatus::Running {
                 return Err(JsError::type_error("Generator is already running"));
             }
-            state.borrow_mut().status = GeneratorStatus::Completed;
             drop(obj_ref);
-            let result = create_generator_result(interp, value, true);
+            let suspended_at_yield = {
+                let st = gen_state.borrow();
+                st.started
+                    && st.status != GeneratorStatus::Completed
+                    && st.delegated_iterator.is_none()
+            };
+            let result = if suspended_at_yield {
+                // Resume with a return completion so that enclosing finally blocks run
+                gen_state.borrow_mut().return_value = Some(value);
+                interp.resume_bytecode_generator(&gen_state)?
+            } else {
+                gen_state.borrow_mut().status = GeneratorStatus::Completed;
+                create_generator_result(interp, value, true)
+            };
             if is_async {
                 wrap_in_fulfilled_promise(interp, result)
             } else {
